@@ -2,7 +2,8 @@
 """keep_seed.py <worktree> <prop> <k> <crate> <needs> <result> : archive a confirmed seeded change under /verif/seeded/<prop>-<k>/"""
 import sys, os, json, shutil, re
 wt, prop, k, crate, needs, result = sys.argv[1:7]
-d = "/verif/seeded/%s-%s" % (prop, k)
+dk = sys.argv[7] if len(sys.argv) > 7 else k
+d = "/verif/seeded/%s-%s" % (prop, dk)
 os.makedirs(d, exist_ok=True)
 shutil.copy(os.path.join(wt, "OUT", "patch_%s.diff" % k), os.path.join(d, "patch.diff"))
 shutil.copy(os.path.join(wt, "OUT", "demo_%s.rs" % k), os.path.join(d, "demo.rs"))
